@@ -105,6 +105,7 @@ class PythonRegex(regex.Regex):
             re.compile(python_regex)  # Check if it is valid
 
         self._python_regex = python_regex
+        self._escape_literal_brackets_in_sets()
         self._replace_shortcuts()
         self._escape_in_brackets()
         self._preprocess_brackets()
@@ -405,6 +406,32 @@ class PythonRegex(regex.Regex):
                     regex_temp[-1] += symbol
                 else:
                     regex_temp.append(symbol)
+        self._python_regex = "".join(regex_temp)
+
+    def _escape_literal_brackets_in_sets(self):
+        """ Inside a set, a closing bracket in first position and any opening
+        bracket are literal characters: we escape them """
+        regex_temp = []
+        in_set = False
+        at_start = False
+        escaped = False
+        for symbol in self._python_regex:
+            if escaped or symbol == "\\":
+                regex_temp.append(symbol)
+                at_start = at_start and not escaped
+                escaped = not escaped
+            elif not in_set:
+                in_set = at_start = symbol == "["
+                regex_temp.append(symbol)
+            elif at_start and symbol == "^" and regex_temp[-1] == "[":
+                regex_temp.append(symbol)
+            elif symbol == "[" or (at_start and symbol == "]"):
+                regex_temp.append("\\" + symbol)
+                at_start = False
+            else:
+                in_set = symbol != "]"
+                at_start = False
+                regex_temp.append(symbol)
         self._python_regex = "".join(regex_temp)
 
     def _preprocess_empty_alternatives(self):
